@@ -49,7 +49,7 @@ impl Op {
             Op::Ite(a, b, c) => json!(["ite", a, b, c]),
             Op::Exists(v, a) => json!(["exists", v, a]),
             Op::All(v, a) => json!(["all", v, a]),
-            Op::ExistsImpl(v, a) => json!(["exists_impl", v, a]),
+            Op::ExistsImpl(v, a) => json!(["exists1", v, a]),
             Op::CountN(k, l, n) => json!([k, l, n]),
             Op::Count2(k, a, b) => json!([format!("count_{}", k), a, b]),
             Op::Fp(k, init, p0, p1, v) => json!(["fp", k, init, p0, p1, v]),
@@ -78,7 +78,7 @@ impl Op {
             "ite" => Op::Ite(us(1)?, us(2)?, us(3)?),
             "exists" => Op::Exists(list(1)?, us(2)?),
             "all" => Op::All(list(1)?, us(2)?),
-            "exists_impl" => Op::ExistsImpl(us(1)?, us(2)?),
+            "exists1" => Op::ExistsImpl(us(1)?, us(2)?),
             "aln" | "amn" | "exn" => Op::CountN(name.to_string(), list(1)?, a.get(2)?.as_i64()?),
             "fp" => Op::Fp(a.get(1)?.as_str()?.to_string(), us(2)?, us(3)?, us(4)?, us(5)?),
             "model" => Op::Model(us(1)?),
@@ -102,7 +102,7 @@ impl Op {
             Op::Ite(..) => "ite".into(),
             Op::Exists(..) => "exists".into(),
             Op::All(..) => "all".into(),
-            Op::ExistsImpl(..) => "exists_impl".into(),
+            Op::ExistsImpl(..) => "exists1".into(),
             Op::CountN(k, ..) => k.clone(),
             Op::Count2(k, ..) => format!("count_{}", k),
             Op::Fp(..) => "fp".into(),
@@ -146,6 +146,19 @@ fn filter_of(s: &str) -> TruthTableEntry {
     }
 }
 
+struct FpLimit;
+impl FpLimit {
+    fn set(n: usize) -> FpLimit {
+        rsbdd::bdd::verif_hooks::set_fp_iteration_limit(Some(n));
+        FpLimit
+    }
+}
+impl Drop for FpLimit {
+    fn drop(&mut self) {
+        rsbdd::bdd::verif_hooks::set_fp_iteration_limit(None);
+    }
+}
+
 /// What an operation produced in the environment.
 pub enum Out {
     Diagram(Rc<BDD<usize>>),
@@ -174,7 +187,9 @@ pub fn apply(env: &BDDEnv<usize>, op: &Op, pool: &[Rc<BDD<usize>>]) -> Out {
         Op::Ite(a, b, c) => env.ite(g(a), g(b), g(c)),
         Op::Exists(v, a) => env.exists(v.clone(), g(a)),
         Op::All(v, a) => env.all(v.clone(), g(a)),
-        Op::ExistsImpl(v, a) => env.exists_impl(v, g(a)),
+        // single-variable elimination through the documented entry point (the helper behind it
+        // is an implementation detail whose signature may change)
+        Op::ExistsImpl(v, a) => env.exists(vec![*v], g(a)),
         Op::CountN(k, l, n) => {
             let bs = gl(l);
             match k.as_str() {
@@ -198,6 +213,9 @@ pub fn apply(env: &BDDEnv<usize>, op: &Op, pool: &[Rc<BDD<usize>>]) -> Out {
         Op::Fp(k, init, p0, p1, v) => {
             let (p0, p1) = (g(p0), g(p1));
             let v = *v;
+            // every transformer of the family is inflationary or deflationary: it stabilises
+            // within the lattice height; the hook turns a runaway iteration into a panic
+            let _guard = FpLimit::set((1usize << K) + 2);
             match k.as_str() {
                 "or-const" => env.fp(g(init), |x| env.or(x, Rc::clone(&p0))),
                 "and-const" => env.fp(g(init), |x| env.and(x, Rc::clone(&p0))),
